@@ -301,9 +301,16 @@ pub struct YAvoid {
     /// quoted scalar containing `: ` (`-\t{a: 1}`, `-\t"a: b"`): validate() says
     /// TabInIndentation (`-\tplain` is pinned as legal by Y79Y/010)
     pub tab_after_dash_before_flow_or_quoted: bool,
-    /// C18: a plain scalar containing white space followed by `|` or `>` (`a: a | b`):
-    /// validate() says ContentAfterBlockScalarHeader
-    pub pipe_inside_plain: bool,
+    /// C18: a plain scalar containing one of `[ { ' "` after white space or after `,` `[` `{`,
+    /// or `|` / `>` after white space (`a: a | b`, `k: a [`, `k: x,'`, `k: a[[`): validate()
+    /// takes the character for the start of a node (ContentAfterBlockScalarHeader,
+    /// UnclosedFlow, UnclosedQuote, ...)
+    pub opener_after_space_in_plain: bool,
+    /// C14: a plain scalar in flow context that contains a quote character (`[a'b, c]`):
+    /// the loader's look-ahead for an implicit `key: value` flow entry treats the quote as
+    /// opening a quoted scalar and scans on, across documents, to a later quote and `:`;
+    /// depending on the following text build() fails "expected ':' in implicit flow mapping entry"
+    pub quote_inside_flow_plain: bool,
     /// C18: a block scalar on a compact line (`- - |`, `- k: |`): the validator measures its
     /// content against the line's indentation, swallows the following sibling lines, and an
     /// anchor defined there is later reported as UnknownAnchor
@@ -341,7 +348,7 @@ impl YAvoid {
         Self::default()
     }
     pub fn all() -> Self {
-        YAvoid { empty_value_before_col0_quoted_key: true, comment_after_root_anchor: true, compact_collection_return_after_deeper: true, tab_after_dash_before_flow_or_quoted: true, pipe_inside_plain: true, block_scalar_on_compact_line: true, compact_quoted_key_space_colon: true, tab_after_closing_quote: true, nextline_plain_continuation_not_deeper: true, literal_hash_first_then_indented: true, root_block_scalar_reread: true, empty_node_at_eof_len64: true }
+        YAvoid { empty_value_before_col0_quoted_key: true, comment_after_root_anchor: true, compact_collection_return_after_deeper: true, tab_after_dash_before_flow_or_quoted: true, opener_after_space_in_plain: true, quote_inside_flow_plain: true, block_scalar_on_compact_line: true, compact_quoted_key_space_colon: true, tab_after_closing_quote: true, nextline_plain_continuation_not_deeper: true, literal_hash_first_then_indented: true, root_block_scalar_reread: true, empty_node_at_eof_len64: true }
     }
 }
 
@@ -505,6 +512,9 @@ pub fn plain_ok(s: &str, ctx: PlainCtx, o: &YOpts) -> bool {
         if ctx == PlainCtx::FlowKey && c == ':' {
             return false;
         }
+        if flow && o.avoid.quote_inside_flow_plain && (c == '\'' || c == '"') {
+            return false;
+        }
     }
     if INDICATORS.contains(cs[0]) {
         // ns-plain-first: `-`, `?`, `:` may start a plain scalar when a "safe" non-space follows
@@ -527,7 +537,9 @@ pub fn plain_ok(s: &str, ctx: PlainCtx, o: &YOpts) -> bool {
         if white(w[0]) && w[1] == '#' {
             return false;
         }
-        if o.avoid.pipe_inside_plain && white(w[0]) && (w[1] == '|' || w[1] == '>') {
+        if o.avoid.opener_after_space_in_plain
+            && ((white(w[0]) && "[{'\"|>".contains(w[1])) || (",[{".contains(w[0]) && "[{'\"".contains(w[1])))
+        {
             return false;
         }
     }
@@ -2072,4 +2084,165 @@ pub fn value_at<'a>(root: &'a Y, path: &[Seg]) -> Option<&'a Y> {
         };
     }
     Some(v)
+}
+
+// ---------------------------------------------------------------- known-finding shapes
+
+/// Which trigger shapes of the recorded findings (see [`YAvoid`]) occur in a rendered
+/// stream? Decided from the span table, so it is exact for generated text; the property
+/// modules use it to attribute a failure found with nothing avoided to its finding.
+/// Names are the signature tags used in `known_findings.json`.
+pub fn known_shapes(r: &RenderedYaml) -> Vec<&'static str> {
+    let t = &r.text;
+    let mut out: Vec<&'static str> = vec![];
+    let line_start = |p: usize| t[..p].iter().rposition(|&b| b == b'\n' || b == b'\r').map(|x| x + 1).unwrap_or(0);
+    let tok = |s: &YSpan| &t[s.start..s.end];
+    let quoted = |s: &YSpan| matches!(s.style, YStyle::Single | YStyle::Double);
+    let mut add = |n: &'static str| {
+        if !out.contains(&n) {
+            out.push(n);
+        }
+    };
+    for (i, s) in r.spans.iter().enumerate() {
+        let ls = line_start(s.start);
+        let prefix = &t[ls..s.start];
+        // tab directly after a quoted scalar or an alias
+        if (quoted(s) || s.style == YStyle::Alias) && t.get(s.end) == Some(&b'\t') {
+            add("tab-after-closing-quote");
+        }
+        if s.style == YStyle::Plain && !s.in_flow {
+            let b = tok(s);
+            if b.windows(2).any(|w| (matches!(w[0], b' ' | b'\t') && b"[{'\"|>".contains(&w[1])) || (b",[{".contains(&w[0]) && b"[{'\"".contains(&w[1]))) {
+                add("opener-inside-plain-scalar");
+            }
+        }
+        if s.style == YStyle::Plain && s.in_flow && tok(s).iter().any(|&b| b == b'\'' || b == b'"') {
+            add("quote-inside-flow-plain");
+        }
+        let pre_trim: Vec<u8> = prefix.iter().copied().filter(|&b| b != b' ').collect();
+        if s.role == YRole::Key && quoted(s) && matches!(t.get(s.end), Some(b' ' | b'\t')) && !pre_trim.is_empty() && pre_trim.iter().all(|&b| b == b'-') {
+            add("compact-quoted-key-then-space");
+        }
+        if s.style == YStyle::Empty && s.role == YRole::Value {
+            if let Some(n) = r.spans.get(i + 1) {
+                if n.role == YRole::Key && quoted(n) && n.doc == s.doc && line_start(n.start) == n.start && matches!(s.path.last(), Some(Seg::Key(_))) {
+                    add("empty-value-then-col0-quoted-key");
+                }
+            }
+        }
+        if s.style == YStyle::Plain && s.multiline && prefix.iter().all(|&b| b == b' ') && !s.in_flow {
+            let col = prefix.len();
+            let body = tok(s);
+            let mut k = 0;
+            while k < body.len() {
+                if body[k] == b'\n' || body[k] == b'\r' {
+                    if body[k] == b'\r' && body.get(k + 1) == Some(&b'\n') {
+                        k += 1;
+                    }
+                    let ind = body[k + 1..].iter().take_while(|&&b| b == b' ').count();
+                    if ind <= col {
+                        add("nextline-plain-continuation-not-deeper");
+                    }
+                }
+                k += 1;
+            }
+        }
+        if s.style == YStyle::Literal {
+            if let Y::Str(v) = &s.value {
+                let mut it = v.split('\n').filter(|l| !l.is_empty());
+                if it.next().map_or(false, |l| l.starts_with('#')) && it.any(|l| l.starts_with(' ') || l.starts_with('\t')) {
+                    add("literal-hash-first-then-indented");
+                }
+            }
+        }
+        if matches!(s.style, YStyle::Literal | YStyle::Folded) {
+            if s.path.is_empty() {
+                let ds = r.doc_starts.get(s.doc).copied().unwrap_or(0);
+                if s.anchor.is_some() || !t[ds..].starts_with(b"---") {
+                    add("root-block-scalar-reread");
+                }
+            }
+            let p = prefix.iter().position(|&b| b != b' ').map(|x| &prefix[x..]).unwrap_or(b"");
+            if p.first() == Some(&b'-') && p[1..].iter().any(|&b| !matches!(b, b' ' | b'\t')) {
+                // something besides the first dash precedes the header: `- - |`, `- k: |`
+                let rest: Vec<u8> = p[1..].iter().copied().filter(|b| !matches!(b, b' ' | b'\t')).collect();
+                if !rest.starts_with(b"&") || rest.contains(&b':') || rest.contains(&b'-') {
+                    add("block-scalar-on-compact-line");
+                }
+            }
+        }
+    }
+    if let Some(last) = r.spans.last() {
+        if last.style == YStyle::Empty && t.len() % 64 == 0 {
+            add("empty-node-at-eof-len64");
+        }
+    }
+    // document-level anchor followed by a comment; tab after `-` before a flow/quoted node
+    let mut pos = 0;
+    while pos <= t.len() {
+        let e = t[pos..].iter().position(|&b| b == b'\n' || b == b'\r').map(|x| pos + x).unwrap_or(t.len());
+        let l = &t[pos..e];
+        let l0 = l.strip_prefix(b"---").map(trim_ws_b).unwrap_or(l);
+        if l0.first() == Some(&b'&') && (l.starts_with(b"---") || l.first() == Some(&b'&')) {
+            let ne = l0.iter().position(|&b| b == b' ' || b == b'\t').unwrap_or(l0.len());
+            if trim_ws_b(&l0[ne..]).first() == Some(&b'#') {
+                add("root-anchor-then-comment");
+            }
+        }
+        let mut i = l.iter().take_while(|&&b| b == b' ').count();
+        let mut tab = false;
+        let mut dashes = 0;
+        while l.get(i) == Some(&b'-') && matches!(l.get(i + 1), Some(b' ' | b'\t')) {
+            dashes += 1;
+            i += 1;
+            while let Some(&b) = l.get(i) {
+                if b == b'\t' {
+                    tab = true;
+                } else if b != b' ' {
+                    break;
+                }
+                i += 1;
+            }
+        }
+        if l.get(i) == Some(&b'&') {
+            while !matches!(l.get(i), None | Some(b' ' | b'\t')) {
+                i += 1;
+            }
+            while matches!(l.get(i), Some(b' ' | b'\t')) {
+                i += 1;
+            }
+        }
+        if dashes > 0 && tab && matches!(l.get(i), Some(b'{' | b'[' | b'"' | b'\'')) {
+            add("tab-after-dash-before-flow-or-quoted");
+        }
+        if e >= t.len() {
+            break;
+        }
+        pos = if t[e] == b'\r' && t.get(e + 1) == Some(&b'\n') { e + 2 } else { e + 1 };
+    }
+    // compact nested collection with >= 2 entries whose first entry is a block collection
+    for c in &r.containers {
+        if c.flow || c.len < 2 {
+            continue;
+        }
+        let ls = line_start(c.start);
+        let compact = t[ls..c.start].iter().any(|&b| b == b'-');
+        if !compact {
+            continue;
+        }
+        let first_child_block = r.containers.iter().any(|d| !d.flow && d.doc == c.doc && d.path.len() == c.path.len() + 1 && d.path.starts_with(&c.path) && match d.path.last() {
+            Some(Seg::Idx(0)) => true,
+            Some(Seg::Key(k)) => r.spans.iter().any(|s| s.role == YRole::Key && s.doc == c.doc && s.path == d.path && s.start == c.start && matches!(&s.value, Y::Str(x) if x == k)),
+            _ => false,
+        });
+        if first_child_block {
+            add("compact-collection-return-after-deeper");
+        }
+    }
+    out
+}
+
+fn trim_ws_b(b: &[u8]) -> &[u8] {
+    let n = b.iter().take_while(|&&c| c == b' ' || c == b'\t').count();
+    &b[n..]
 }
